@@ -6,7 +6,9 @@ import DaskModel.Props.C17
   dictionary), at any nested path, is what `get` returns afterwards, whatever was there before
 * `updateGo_frame`, `canonicalName_frame` — `update` touches only the entries named by the keys of `new`
 * non-vacuity examples for the precedence theorems of `Props/C17.lean`
-Still validated only (oracle + diff): nested `"old"` / `"new-defaults"` precedence beyond the top level.
+* `update_old_nested_keeps` — priority `"old"`, any depth: a scalar of `old` stays, unless `new` holds a mapping exactly
+  where the path ends (`SafeOld`; a mapping replaces a scalar under every priority)
+Still validated only (oracle + diff): nested `"new-defaults"` precedence.
 -/
 namespace Dask.C17
 open Dask.Config
@@ -268,5 +270,139 @@ example : envVarName "DASK_A__B_C" = some "a.b_c" ∧
     assign ["a", "b_c"] (.leaf 1) [("a", .node [("b-c", .leaf 0)])] [] true
       = some ([("a", .node [("b-c", .leaf 1)])], [.replace ["a", "b-c"] (.leaf 0)]) := by
   refine ⟨by decide, by rfl⟩
+
+/-- `new` never puts a MAPPING where `path` ends (a mapping replaces a scalar whatever the priority — `update`'s rule
+for mapping-valued items): along `path`, every key of `new` that `canonical_name` could map onto the segment holds a
+scalar, or a mapping that is again safe for the rest of the path -/
+def SafeOld : Dict → List String → Prop
+  | _, [] => True
+  | new, [k] => ∀ kv ∈ new, (kv.1 = k ∨ altName kv.1 = k) → ∃ x, kv.2 = Cfg.leaf x
+  | new, k :: k2 :: ks => ∀ kv ∈ new, (kv.1 = k ∨ altName kv.1 = k) →
+      (∃ x, kv.2 = Cfg.leaf x) ∨ (∃ sub, kv.2 = Cfg.node sub ∧ SafeOld sub (k2 :: ks))
+
+theorem leafAt_congr (d d' : Dict) (k : String) (rest : List String) (h : dget d' k = dget d k) :
+    leafAt d' (k :: rest) = leafAt d (k :: rest) := by
+  cases rest <;> simp [leafAt, h]
+
+theorem dhas_of_leafAt (d : Dict) (k : String) (rest : List String) (c : Int) (h : leafAt d (k :: rest) = some c) :
+    dhas d k = true := by
+  cases hg : dget d k with
+  | none => cases rest <;> simp [leafAt, hg] at h
+  | some v => simp [dhas, hg]
+
+/-- **update_old_nested_keeps.** Priority `"old"`, any depth: a scalar of `old` at any nested path is still there
+afterwards — "the old dictionary has preference" — unless `new` holds a mapping exactly where the path ends
+(`SafeOld` excludes that; a mapping replaces a scalar under every priority). -/
+theorem update_old_nested_keeps : ∀ (path : List String) (new old d' : Dict) (c : Int),
+    updateGo .old new old none = some d' → leafAt old path = some c → SafeOld new path → leafAt d' path = some c := by
+  intro path
+  induction path using List.rec with
+  | nil => intro new old d' c _ hl; simp [leafAt] at hl
+  | cons k rest ihp =>
+    intro new
+    induction new with
+    | nil =>
+      intro old d' c h hl _
+      simp only [updateGo, Option.some.injEq] at h
+      rw [← h]; exact hl
+    | cons kv tl ih =>
+      intro old d' c h hl hsafe
+      obtain ⟨k', v⟩ := kv
+      have hsafe_tl : SafeOld tl (k :: rest) := by
+        cases rest with
+        | nil => exact fun kv hkv => hsafe kv (List.mem_cons_of_mem _ hkv)
+        | cons k2 ks => exact fun kv hkv => hsafe kv (List.mem_cons_of_mem _ hkv)
+      by_cases hkey : canonicalName k' old = k
+      · -- this item addresses the entry the path goes through
+        have hrel : k' = k ∨ altName k' = k := by
+          rcases canonicalName_cases k' old with e | e
+          · exact Or.inl (e ▸ hkey)
+          · exact Or.inr (e ▸ hkey)
+        have hhas := dhas_of_leafAt old k rest c hl
+        cases v with
+        | leaf x =>
+          simp only [updateGo, leafWins, hkey, hhas] at h
+          simp only [Bool.not_true, Bool.or_false] at h
+          have hp : (Priority.old == Priority.new) = false := by decide
+          have hq : (Priority.old == Priority.newDefaults) = false := by decide
+          simp only [hp, hq, Bool.false_and, Bool.false_eq_true, if_false] at h
+          exact ih old d' c h hl hsafe_tl
+        | node sub =>
+          -- the path must go on below (SafeOld forbids a mapping at its end), and `old[k]` is a mapping
+          cases rest with
+          | nil =>
+            have := hsafe (k', .node sub) List.mem_cons_self hrel
+            obtain ⟨x, hx⟩ := this
+            cases hx
+          | cons k2 ks =>
+            have hs := hsafe (k', .node sub) List.mem_cons_self hrel
+            rcases hs with ⟨x, hx⟩ | ⟨sub', hsub, hsafe'⟩
+            · cases hx
+            · cases hsub
+              simp only [updateGo, subDefaults, truthy, Bool.false_eq_true, if_false, hkey] at h
+              cases hg : dget old k with
+              | none => simp [leafAt, hg] at hl
+              | some ov =>
+                cases ov with
+                | leaf y => simp [leafAt, hg] at hl
+                | node s =>
+                  have hl' : leafAt s (k2 :: ks) = some c := by simpa [leafAt, hg] using hl
+                  have hcur : curOf old k = s := by simp [curOf, hg]
+                  rw [hcur] at h
+                  cases hu : updateNode .old (.node sub) s none with
+                  | none => rw [hu] at h; simp at h
+                  | some cur' =>
+                    rw [hu] at h
+                    simp only [] at h
+                    simp only [updateNode] at hu
+                    have hin := ihp sub s cur' c hu hl' hsafe'
+                    apply ih _ d' c h _ hsafe_tl
+                    simp [leafAt, dget_dset_self, hin]
+      · -- another entry: the one on the path is not touched by this item
+        have hstep : ∀ x, leafAt (dset old (canonicalName k' old) x) (k :: rest) = leafAt old (k :: rest) :=
+          fun x => leafAt_congr old _ k rest (dget_dset_other _ _ _ _ hkey)
+        cases v with
+        | leaf x =>
+          simp only [updateGo] at h
+          cases hw : leafWins id .old old (canonicalName k' old) none with
+          | none => rw [hw] at h; simp at h
+          | some b =>
+            rw [hw] at h
+            cases b
+            · exact ih old d' c h hl hsafe_tl
+            · exact ih _ d' c h (by rw [hstep]; exact hl) hsafe_tl
+        | node sub =>
+          simp only [updateGo, subDefaults, truthy, Bool.false_eq_true, if_false] at h
+          cases hu : updateNode .old (.node sub) (curOf old (canonicalName k' old)) none with
+          | none => rw [hu] at h; simp at h
+          | some cur' =>
+            rw [hu] at h
+            simp only [] at h
+            exact ih _ d' c h (by rw [hstep]; exact hl) hsafe_tl
+
+/-- non-vacuity: `old = {a: {b: 1, c: 2}, x: 3}`, `new = {a: {b: 9, d: 4}, x: 7, a-b: {q: 0}}` is safe for `a.b`, and
+`update(old, new, priority="old")` keeps `a.b = 1` (and adds `a.d`, `a-b`) -/
+example :
+    SafeOld [("a", .node [("b", .leaf 9), ("d", .leaf 4)]), ("x", .leaf 7), ("a-b", .node [("q", .leaf 0)])] ["a", "b"] ∧
+    leafAt [("a", .node [("b", .leaf 1), ("c", .leaf 2)]), ("x", .leaf 3)] ["a", "b"] = some 1 ∧
+    update .old [("a", .node [("b", .leaf 1), ("c", .leaf 2)]), ("x", .leaf 3)]
+      [("a", .node [("b", .leaf 9), ("d", .leaf 4)]), ("x", .leaf 7), ("a-b", .node [("q", .leaf 0)])] none
+      = some [("a", .node [("b", .leaf 1), ("c", .leaf 2), ("d", .leaf 4)]), ("x", .leaf 3), ("a-b", .node [("q", .leaf 0)])] := by
+  refine ⟨?_, by rfl, by rfl⟩
+  intro kv hkv hrel
+  simp only [List.mem_cons, List.not_mem_nil, or_false] at hkv
+  rcases hkv with rfl | rfl | rfl
+  · right
+    refine ⟨_, rfl, ?_⟩
+    intro kv hkv hrel
+    simp only [List.mem_cons, List.not_mem_nil, or_false] at hkv
+    rcases hkv with rfl | rfl
+    · exact ⟨9, rfl⟩
+    · exact ⟨4, rfl⟩
+  · exact Or.inl ⟨7, rfl⟩
+  · exfalso
+    rcases hrel with h | h
+    · revert h; decide
+    · revert h; decide
 
 end Dask.C17
